@@ -216,6 +216,12 @@ class SemWalker:
         k = t.kind
         f = t.fields
         sub = lambda role: st.copy(role=f"{k}.{role}")
+        if getattr(t, "rebuilt_from", None) is not None:
+            # node rebuilt field by field by the generic copier: every field in order
+            for fld, x in f.items():
+                if isinstance(x, (V, Rep, Splice)):
+                    self.walk(x, sub(fld))
+            return
         if k == "Name":
             ctx = f.get("ctx")
             store = isinstance(ctx, TNode) and ctx.kind == "Store" and st.role in ("NamedExpr.target", "comprehension.target")
@@ -342,8 +348,15 @@ class SemWalker:
             step = f.get("step")
             # evaluation of nested wrappers: outermost first.  With a loop that re-wraps
             # its accumulator the LAST iteration is outermost.
-            self.emit("nest-begin", over, t, st)
+            begin = self.emit("nest-begin", over, t, st)
+            n0 = len(self.events)
             self.walk(step, st.copy(mult=st.mult + (over,), role="$Nest.step"))
+            inner = self.events[n0:]
+            hole_pos = [e.pos for e in inner if e.kind == "nest-hole"]
+            user_pos = [e.pos for e in inner if e.kind in ("X", "raw", "S", "param", "unknown")]
+            # accumulator evaluated before this step's own holes => earlier iterations run first
+            begin.extra["hole_first"] = bool(hole_pos) and (not user_pos or min(hole_pos) < min(user_pos))
+            begin.extra["hole_seen"] = bool(hole_pos)
             self.walk(f.get("init"), sub("init"))
             self.emit("nest-end", over, t, st)
             return
